@@ -60,7 +60,7 @@ func (e *metEv) fill() *metEv {
 
 // names, tag names and values avoid the registry's own delimiters ':' and '=': two different identities whose
 // concatenated keys coincide (name "a:b=c" vs name "a" with tag b=c) are outside the statement of C18
-var metNames = []string{"requests_total", "latency", "a", "ab", ""}
+var metNames = []string{"requests_total", "latency", "a", "ab", "", "latency_duration", "a_duration"} // (a timer keeps its observations in "<name>_duration")
 var metKeys = []string{"method", "status", "b", "zone", "kx"}
 var metVals = []string{"GET", "200", "c", "", "vw"}
 
@@ -170,9 +170,13 @@ func metricsRandom(args []string) int {
 					c.Inc()
 				}
 				d.emit(&metEv{Op: "add", SID: d.sid(c), N: n})
-			case x < 70:
+			case x < 66:
 				c := counters[r.Intn(len(counters))]
 				d.emit(&metEv{Op: "cval", SID: d.sid(c), N: c.Value()})
+			case x < 70: // a counter set back to zero (more than once in a trace)
+				c := counters[r.Intn(len(counters))]
+				c.Reset()
+				d.emit(&metEv{Op: "creset", SID: d.sid(c)})
 			case x < 88:
 				h := hists[r.Intn(len(hists))]
 				v := []int{0, 1, 2, 3, 7, 10, 11, 60, 250, 999, 10000, 10001, 500000}[r.Intn(13)]
